@@ -139,6 +139,12 @@ func FromIPLD[T Tokener](node datamodel.Node) (T, error) {
 		return zero, err
 	}
 
+	// bindnode silently wraps unsigned integers above MaxInt64 when it
+	// assigns them to int64 fields (2^64-1 becomes -1): refuse them.
+	if err := checkIntFields(info.tokenPayloadNode); err != nil {
+		return zero, err
+	}
+
 	// Replaces the datamodel.Node in tokenPayloadNode with a
 	// schema.TypedNode so that we can cast it to a *token.Token after
 	// unwrapping it.
@@ -199,6 +205,33 @@ func FromIPLD[T Tokener](node datamodel.Node) (T, error) {
 	}
 
 	return tkn, nil
+}
+
+// checkIntFields verifies that the integer fields of the token payload fit
+// in an int64.
+func checkIntFields(payload datamodel.Node) error {
+	if payload.Kind() != datamodel.Kind_Map {
+		return nil
+	}
+
+	it := payload.MapIterator()
+	for !it.Done() {
+		k, v, err := it.Next()
+		if err != nil {
+			return err
+		}
+
+		if v.Kind() != datamodel.Kind_Int {
+			continue
+		}
+
+		if _, err := v.AsInt(); err != nil {
+			key, _ := k.AsString()
+			return fmt.Errorf("field %q: %w", key, err)
+		}
+	}
+
+	return nil
 }
 
 // Encode marshals a Tokener to the format specified by the provided
